@@ -309,26 +309,82 @@ self.count += $nm.count
     # TagCountMapper.rec
     fd = m.func(A + "TagCountMapper.rec")
     src = ast.unparse(fd)
-    ifs = [n for n in ast.walk(fd) if isinstance(n, ast.If)
-           and "_tag_types" in ast.unparse(n.test)]
-    ok = False
-    if len(ifs) == 1:
-        t = ifs[0]
-        tt = ast.unparse(t.test)
-        body_plus = any(isinstance(n, ast.BinOp) and isinstance(n.op, ast.Add)
-                        and "1" in (ast.unparse(n.left), ast.unparse(n.right))
-                        for s in t.body for n in ast.walk(s))
-        else_zero = not any(isinstance(n, ast.BinOp) and isinstance(n.op, ast.Add)
-                            and "1" in (ast.unparse(n.left), ast.unparse(n.right))
-                            for s in t.orelse for n in ast.walk(s))
-        ep = fd.args.args[1].arg
-        subset = has(t.test, f"isinstance({ep}, Array) and "
-                             f"self._tag_types <= frozenset((type($t) for $t in {ep}.tags))")
-        ok = body_plus and else_zero and subset
+    # What the un-cached path returns is evaluated abstractly on the normal form
+    # (helpers inlined, locals propagated, two-armed assignments as conditional
+    # expressions), for the four truth values of
+    #   A = isinstance(expr, Array)   B = self._tag_types <= {types of expr's tags}:
+    # it must be (count of the predecessors) + 1 when A and B, + 0 otherwise.
+    from pta.pat import expr_is
+    ep = fd.args.args[1].arg
+    nf = m.normal(fd)
+
+    class _Unk(Exception):
+        pass
+
+    def ev(n, a, b):
+        """-> (constant part, number of times the predecessors' count is added) for
+        an int-valued node, bool for a boolean one"""
+        if isinstance(n, ast.Constant) and isinstance(n.value, (bool, int)):
+            return n.value if isinstance(n.value, bool) else (n.value, 0)
+        if expr_is(n, f"isinstance({ep}, Array)"):
+            return a
+        if expr_is(n, f"self._tag_types <= frozenset((type($t) for $t in {ep}.tags))") \
+                or expr_is(n, f"frozenset((type($t) for $t in {ep}.tags)) >= self._tag_types") \
+                or expr_is(n, f"self._tag_types.issubset(frozenset((type($t) for $t in "
+                              f"{ep}.tags)))"):
+            if not a:
+                raise _Unk("tag test evaluated for a non-array")
+            return b
+        if isinstance(n, ast.UnaryOp) and isinstance(n.op, ast.Not):
+            v = ev(n.operand, a, b)
+            if isinstance(v, bool):
+                return not v
+        if isinstance(n, ast.BoolOp):
+            res = isinstance(n.op, ast.And)
+            for v_ in n.values:         # short circuit, left to right
+                v = ev(v_, a, b)
+                if not isinstance(v, bool):
+                    raise _Unk(ast.unparse(n))
+                if v != res:
+                    return v
+            return res
+        if isinstance(n, ast.IfExp):
+            t = ev(n.test, a, b)
+            if isinstance(t, bool):
+                return ev(n.body if t else n.orelse, a, b)
+        if isinstance(n, ast.BinOp) and isinstance(n.op, ast.Add):
+            l, r = ev(n.left, a, b), ev(n.right, a, b)
+            if isinstance(l, tuple) and isinstance(r, tuple):
+                return (l[0] + r[0], l[1] + r[1])
+        if isinstance(n, ast.Call) and ast.unparse(n.func).endswith(".rec") \
+                and "super(" in ast.unparse(n.func) and len(n.args) == 1 \
+                and ast.unparse(n.args[0]) == ep:
+            return (0, 1)
+        if isinstance(n, ast.Call) and isinstance(n.func, ast.Name) and n.func.id == "int" \
+                and len(n.args) == 1:
+            v = ev(n.args[0], a, b)
+            return (int(v), 0) if isinstance(v, bool) else v
+        raise _Unk(ast.unparse(n)[:60])
+    handlers = [h for h in ast.walk(nf) if isinstance(h, ast.ExceptHandler)]
+    rets = [r for h in handlers for r in ast.walk(h) if isinstance(r, ast.Return)
+            and r.value is not None]
+    ok = len(rets) == 1
+    why = ""
+    if ok:
+        for a in (True, False):
+            for b in (True, False):
+                try:
+                    got = ev(rets[0].value, a, b)
+                except _Unk as e:
+                    ok, why = False, f"cannot evaluate `{e}`"
+                    break
+                if got != ((1 if (a and b) else 0), 1):
+                    ok = False
+                    why = f"for array={a}, all tag types present={b} it returns {got}"
     c.check(ok, "R20-COUNT", "TagCountMapper.rec", "adds-one-iff-tagged",
             m.loc(m.module_of(fd), fd),
             "a node contributes 1 not exactly when its tag types include all of "
-            "tag_types")
+            f"tag_types ({why or 'no single return on the un-cached path'})")
     adds = [n for n in ast.walk(fd) if isinstance(n, ast.Call)
             and ast.unparse(n.func) == "self._cache_add"]
     c.check(len(adds) == 1 and ast.unparse(adds[0].args[1]) == "0",
